@@ -343,8 +343,7 @@ def run(ctx):
             n = rng.choice(small_n)
             check_pair(f, A, B, n)
         # full-size exponents via the model: a few (each takes 20-60 s of vm_compute)
-        if ctx.tier == 'thorough' or (f.kind in ('ede', 'wj', 'wp') and not big and nfull < 3 and
-                                      f.name.find('BN256') < 0 or (f.kind == 'wp' and 'BN256' in f.name and nfull < 3)):
+        if ctx.tier == 'thorough' or (f.kind in ('ede', 'wj') and not big and 'BN256' not in f.name):
             nfull += 1
             n = rng.choice([order, order - 1, order + 1, -rng.randrange(order), rng.randrange(order), -(1 << (order.bit_length() - 2))]) \
                 if ctx.tier == 'thorough' else rng.choice([order + 1, -rng.randrange(order), -(1 << (order.bit_length() - 2))])
@@ -364,9 +363,9 @@ def run(ctx):
         ns = [0, 1, -1, 2, -2, order, order - 1, order + 1, -order, -order - 1, -4, -8, 4, 7, -(1 << 5), 1 << 6,
               rng.randrange(-10 ** 6, 10 ** 6), -rng.randrange(1, 1 << 40)]
         pairs = list(itertools.product(A, A))
-        if ctx.tier == 'quick' and len(pairs) > 60:
-            pairs = rng.sample(pairs, 60) + [(a, a) for a in rng.sample(A, min(6, len(A)))] + \
-                    [(a, ref_neg(f, a)) for a in rng.sample(A, min(6, len(A)))]
+        if ctx.tier == 'quick' and len(pairs) > 24:
+            pairs = rng.sample(pairs, 18) + [(a, a) for a in rng.sample(A, min(3, len(A)))] + \
+                    [(a, ref_neg(f, a)) for a in rng.sample(A, min(3, len(A)))]
         else:
             exhaustive_pairs += 1
         for i, (a, b) in enumerate(pairs):
@@ -442,7 +441,8 @@ def run(ctx):
                     continue
                 sym_case(n, p, q, es[cnt % len(es)])
                 cnt += 1
-    ctx.extra['exhaustive'] = True
+    ctx.extra['exhaustive'] = ctx.tier == 'thorough'    # Sym(n), n <= 3 always; Sym(4) all pairs in the thorough tier
+    ctx.extra['sym_all_pairs_upto_n'] = ctx.n(3, 4)
     for _ in range(ctx.n(60, 400)):
         n = rng.randrange(5, 9)
         p = list(range(n))
@@ -556,7 +556,7 @@ def run(ctx):
     if ok:
         pre = 'Open Scope Z_scope.\n'
         jobs = [('heavy', ['MPyC.Curves'], heavy_exprs, 1, pre),
-                ('curves', ['MPyC.Curves'], exprs, 60, pre),
+                ('curves', ['MPyC.Curves'], exprs, 120, pre),
                 ('sym', ['MPyC.Group', 'MPyC.Sym'], sym_exprs, 200, ''),
                 ('mg', ['MPyC.Group'], mg_exprs, 80, pre)]
         ctx.log('evaluating %d + %d (full-size repeat) curve, %d Sym, %d QR/Schnorr model expressions in Coq' % (
@@ -566,10 +566,18 @@ def run(ctx):
             t.start()
             threads.append(t)
 
-    oracle_all_families(ctx, fg, FGE, violation)
-
+    crash = None
+    try:
+        oracle_all_families(ctx, fg, FGE, violation)
+    except Exception:  # noqa  (join the Coq jobs before reporting)
+        import traceback
+        crash = traceback.format_exc()
+    ctx.log('implementation-level oracle done')
     for t in threads:
         t.join()
+    if crash:
+        ctx.log('oracle crashed:\n' + crash)
+        ctx.unproved('harness-crash in oracle', {'traceback': crash[-3000:]})
     if ok:
         mism = 0
 
@@ -673,7 +681,7 @@ def oracle_all_families(ctx, fg, FGE, violation):
         g = G.generator
         out = [G.identity, g, G.inversion(g)]
         for _ in range(k):
-            out.append(G.repeat(g, rng.randrange(1, G.order or 1 << 64)))
+            out.append(G.repeat(g, rng.randrange(0, G.order or 1 << 64)))
         return out + list(extra)
 
     S = ctx.n(12, 60)
@@ -692,7 +700,7 @@ def oracle_all_families(ctx, fg, FGE, violation):
         laws(G, G.__name__, gen_elems(G, 8), S, small, bigs(G.order), 'law-QR')
         if not G.equality(G.repeat(G.generator, G.order), G.identity):
             violation('law-oracle %s generator-order' % G.__name__, {'group': G.__name__})
-    for kw in (dict(l=8, n=4), dict(l=16, n=8), dict(l=64, n=32), dict(l=ctx.n(160, 1024))):
+    for kw in (dict(l=8, n=4), dict(l=16, n=8), dict(l=64, n=32), dict(l=ctx.n(128, 1024), n=ctx.n(64, 160))):
         G = fg.SchnorrGroup(**kw)
         laws(G, G.__name__, gen_elems(G, 8), S, small, bigs(G.order), 'law-Schnorr')
         if not G.equality(G.repeat(G.generator, G.order), G.identity):
@@ -765,7 +773,7 @@ def oracle_all_families(ctx, fg, FGE, violation):
                 violation('law-oracle %s result-not-reduced' % name, {'group': name, 'a': repr(a), 'result': repr(x)})
         # encode / decode over the allowed range: (m+1)*gap <= isqrt(-D)/2
         from math import isqrt
-        mmax = int(isqrt(-D) / 2 // G.gap) - 1
+        mmax = (isqrt(-D) // 2) // G.gap - 2      # one below the (float) bound asserted by encode
         for m in sorted({m for m in (0, 1, 2, mmax, mmax // 2, rng.randrange(0, max(1, mmax + 1))) if 0 <= m <= mmax}):
             try:
                 M, Zz = G.encode(m)
@@ -791,7 +799,11 @@ def oracle_all_families(ctx, fg, FGE, violation):
         if G.order is not None and not G.equality(G.repeat(G.generator, G.order), G.identity):
             violation('law-oracle %s generator-order' % name, {'group': name})
         if G.field.modulus.bit_length() >= 16:
-            for m in (0, 1, 2, 77, rng.randrange(1, G.field.modulus // G.gap - 1)):
+            # allowed range: the encoded coefficient must not wrap modulo p
+            # (affine: u[0] = m*gap+i < p; Costello-Lauter: u[1] = 2*(m*gap+i) < p)
+            ext = kw.get('coordinates') == 'extended' or kw.get('curvename') == 'kummer1271'
+            mmax = G.field.modulus // (G.gap * (2 if ext else 1)) - 2
+            for m in (0, 1, 2, 77, min(mmax, (1 << 44) - 1), rng.randrange(1, mmax)):
                 try:
                     enc = G.encode(m)
                 except ValueError:
@@ -800,5 +812,6 @@ def oracle_all_families(ctx, fg, FGE, violation):
                     continue
                 M, Zz = enc
                 if G.decode(M, Zz) != m:
-                    violation('law-oracle %s decode(encode(m))' % name, {'group': name, 'm': m, 'got': G.decode(M, Zz)})
+                    big = ' m*gap>=2^53' if (m + 1) * G.gap * (2 if ext else 1) >= 1 << 53 else ''
+                    violation('law-oracle %s decode(encode(m))%s' % (name, big), {'group': name, 'm': m, 'got': G.decode(M, Zz)})
                 ctx.case({'group': name, 'encode': m}, kind='HC-encode')
